@@ -300,6 +300,9 @@ fn structural_cases(text: &str, out: &mut Vec<Case>) {
         }
         // prefix bound to the empty namespace name
         push("prefix-undeclared-with-empty-uri", splice(text, t.name.1, 0, " xmlns:zp=\"\""), Expect::Reject);
+        push("declare-prefix-xmlns", splice(text, t.name.1, 0, " xmlns:xmlns=\"urn:y\""), Expect::Reject);
+        push("bind-to-xmlns-namespace", splice(text, t.name.1, 0, " xmlns:zx=\"http://www.w3.org/2000/xmlns/\""), Expect::Reject);
+        push("prefixed-xmlns-attribute", splice(text, t.name.1, 0, " xmlns:zy=\"urn:zy\" zy:xmlns=\"v\""), Expect::Accept);
         push("attribute-without-value", splice(text, t.name.1, 0, " novalue"), Expect::Reject);
         push("unquoted-attribute", splice(text, t.name.1, 0, " a1=v"), Expect::Reject);
         push("unbound-prefix-attribute", splice(text, t.name.1, 0, " zu:a=\"1\""), Expect::Reject);
